@@ -1,6 +1,6 @@
 //! End-to-end checks through the real listener: C01 C03(e2e half) C04(e2e half) C05 C07 C11 C13 C14 C15.
 
-use gpa_verif::props::c01;
+use gpa_verif::props::{c01, c05};
 use gpa_verif::report::{Known, Params, Stats};
 use gpa_verif::rig::Rig;
 use gpa_verif::runner::Drive;
@@ -10,6 +10,7 @@ fn main() {
     let params = Params::from_env();
     gpa_verif::hmacsha::self_test();
     gpa_verif::runner::install_panic_hook();
+    gpa_verif::runner::SHRINK_ITERS.store(400, std::sync::atomic::Ordering::Relaxed);
     let known = Known::load(&params.prop);
     let mut stats = Stats::new();
     let t0 = Instant::now();
@@ -37,6 +38,16 @@ fn main() {
             let n = params.share(if th { 100_000 } else { 3_000 });
             Drive { params: &params, stats: &mut stats, known: &known }.run("c03.e2e", 31, c01::strategy_c03(), n, |c, s| c01::eval(&rig, c, s));
             ("end-to-end half: the C01 rig restricted to non-elevated records for WireServer/HostGAPlugin and to the self destination, under generated rule sets; oracle: 403 and zero upstream bytes. non-trivial as in C01.".into(), e2e_assumptions)
+        }
+        "C05" => {
+            let n = params.share(if th { 200_000 } else { 6_000 });
+            Drive { params: &params, stats: &mut stats, known: &known }.run("c05.headers", 5, c05::strategy(0..4, 0.7), n, |c, s| c05::eval(&rig, c, s, false));
+            (c05::RULE_C05.into(), e2e_assumptions)
+        }
+        "C04" => {
+            let n = params.share(if th { 200_000 } else { 6_000 });
+            Drive { params: &params, stats: &mut stats, known: &known }.run("c04.e2e", 41, c05::strategy(0..1, 0.999), n, |c, s| c05::eval(&rig, c, s, true));
+            (c05::RULE_C04.into(), e2e_assumptions)
         }
         other => {
             eprintln!("e2e: unknown property '{}'", other);
